@@ -403,6 +403,9 @@ func runC20(c *Ctx) {
 		esc := p.EscapesWithout(upd, isFreshPrimary, mustOpts{skipEdge: noPrimaryGiven})
 		c.Check(esc == nil, "R5", funcName(upd)+":fresh-primary", upd.Pos(), "Update(primary, …) installs a new endpoint for the primary", "topology.Update can finish without installing a new endpoint for the given primary: the old object keeps its dead flag, so a leader that answered one request with 5xx stays 'dead' for writes although discovery has just confirmed it")
 	}
+	updateBuildsAFreshList(c, "R5")
+	markAsDeadAlwaysMarks(c, "R6")
+	retrierBound(c, "R4")
 	if nU < 2 {
 		c.Fail("R5", "topology-updates", upd.Pos(), fmt.Sprintf("%d topology updates from server answers (discovery and redirect hook expected)", nU))
 	}
